@@ -126,9 +126,6 @@ func knownFindings(c in) []string {
 	if c.Fn == "gsub" && c.Repl != nil && c.Repl.Kind == "str" && replHasOtherEscape(unhex(c.Repl.Str)) {
 		kf = append(kf, "C14-5")
 	}
-	if c.Fn != "prog" && backrefToOpenCapture(p) {
-		kf = append(kf, "C14-9")
-	}
 	if c.Fn != "prog" && setRangeEndsWithPercent(p) {
 		kf = append(kf, "C14-10")
 	}
@@ -171,8 +168,22 @@ func corpus(w *lib.Writer, pl *pool) {
 		g("abc", "b", replIn{Kind: "num", Num: 5}, nil), // C14-7 (fixed)
 		f("match", "a", "b", nil),                       // no match must be one nil (fixed)
 		f("gmatch", "a", "a", nil),                      // iterator past exhaustion (fixed)
-		f("find", "ab", "(a*(b)%1)", nil),               // C14-9 (open): back-reference to an open capture
-		f("find", "xab", "(a*(b)%1)", nil),              // C14-9: slice bounds panic
+		f("find", "ab", "(a*(b)%1)", nil),               // C14-9 (fixed): back-reference to an open capture
+		f("find", "xab", "(a*(b)%1)", nil),              // C14-9: was a slice bounds panic
+		f("find", "xab", "(a(b)%1)", nil),               // C14-9 witness of the side report
+		f("gmatch", "xab", "(a(b)%1)", nil),             //
+		f("find", "b", "(a%1)", nil),                    // never reached in 5.1 (nil); an error here is allowed
+		g("abc", "b", replIn{Kind: "fn", Rets: []tabEntry{{Bad: "table"}}}, nil),                        // invalid replacement value (fixed)
+		g("abc", "%w", replIn{Kind: "fn", Rets: []tabEntry{{Val: sp("x")}, {Bad: "true"}}}, nil),         //
+		g("abc", "b", replIn{Kind: "tab", Tab: []tabEntry{{KeyStr: sp("b"), Bad: "table"}}}, nil),       //
+		g("abc", "b", replIn{Kind: "tab", Tab: []tabEntry{{KeyStr: sp("b"), Bad: "func"}}}, nil),        //
+		g("abc", "c", replIn{Kind: "fn", Rets: []tabEntry{{Bad: "userdata"}}}, nil),                     //
+		{Fn: "find", S: hx("a.b"), P: hx("."), Init: i64(1), Plain: true, Extra: 1, Src: "corpus"},    // plain flag with 5 arguments (fixed)
+		{Fn: "find", S: hx("a.b"), P: hx("."), Init: i64(1), Plain: true, Extra: 0, Src: "corpus"},
+		{Fn: "find", S: hx("a+b"), P: hx("+b"), Init: i64(-2), Plain: true, Extra: 3, Src: "corpus"},
+		g("abc", "(%w)", str("%2"), nil),     // seeded C14-8: %N with N = captures+1
+		g("abc", "(%w)(%w)", str("%3"), nil), //
+		g("abc", "()", str("%2"), nil),       //
 		f("find", "a", "%", nil),                        // malformed: no match
 		f("find", "a", "a)", nil),
 		f("find", "b", "(a$", nil),
@@ -485,11 +496,13 @@ func gsubCase(r *lib.Rand, p, s, origin string) in {
 			} else {
 				e.KeyNum = i64(int64(r.Range(1, len(s)+1)))
 			}
-			switch r.Pick(60, 20, 20) {
+			switch r.Pick(56, 18, 18, 8) {
 			case 0:
 				e.Val = sp([]string{"", "Q", "<k>", "%1"}[r.Intn(4)])
 			case 1:
 				e.Num = i64(int64(r.Range(0, 99)))
+			case 3:
+				e.Bad = []string{"table", "true", "func", "userdata"}[r.Intn(4)]
 			}
 			t = append(t, e)
 		}
@@ -498,11 +511,13 @@ func gsubCase(r *lib.Rand, p, s, origin string) in {
 		var rets []tabEntry
 		for k := r.Range(0, 5); k > 0; k-- {
 			var e tabEntry
-			switch r.Pick(55, 15, 30) {
+			switch r.Pick(52, 14, 27, 7) {
 			case 0:
 				e.Val = sp([]string{"", "R", "[r]", "%0"}[r.Intn(4)])
 			case 1:
 				e.Num = i64(int64(r.Range(0, 99)))
+			case 3:
+				e.Bad = []string{"table", "true", "func", "userdata"}[r.Intn(4)]
 			}
 			rets = append(rets, e)
 		}
@@ -634,6 +649,43 @@ func generate(w *lib.Writer, pl *pool, r *lib.Rand, tier string) {
 		}
 		runCase(w, pl, in{Fn: "gmatch", S: hx(v.s), P: hx(v.p), Src: "anchored-init"})
 		runCase(w, pl, in{Fn: "gsub", S: hx(v.s), P: hx(v.p), Repl: &replIn{Kind: "str", Str: hx("<%0>")}, Src: "anchored-init"})
+	}
+
+	// (1d) capture references in replacement strings: k captures (0..3, plain and position) x %N for
+	// N = 0..k+2, alone and between literals
+	capPats := []string{"%w", "(%w)", "()%w", "(%w)(%w)", "(%w)()", "((%w)%w)", "(%w)(%w)(%w)", "()()()"}
+	for _, p := range capPats {
+		for n := 0; n <= 5; n++ {
+			rp := fmt.Sprintf("%%%d", n)
+			if r.Chance(50) {
+				rp = "<" + rp + ">"
+			}
+			c := in{Fn: "gsub", S: hx("ab cd"), P: hx(p), Repl: &replIn{Kind: "str", Str: hx(rp)}, Src: "repl-index"}
+			if r.Chance(30) {
+				c.Limit = i64(1)
+			}
+			runCase(w, pl, c)
+		}
+	}
+	// (1e) plain find with and without further arguments after the flag
+	nplain := 40
+	if thorough {
+		nplain = 2000
+	}
+	for n := 0; n < nplain; n++ {
+		s := string(r.Bytes(r.Range(0, 8), []byte("ab.%+-")))
+		var p string
+		if len(s) > 0 && r.Chance(70) {
+			a := r.Intn(len(s))
+			p = s[a:r.Range(a, min(len(s), a+3))]
+		} else {
+			p = string(r.Bytes(r.Range(0, 2), []byte("ab.%+-")))
+		}
+		c := in{Fn: "find", S: hx(s), P: hx(p), Plain: true, Extra: r.Pick(40, 30, 20, 10), Src: "plain-extra"}
+		if r.Chance(70) {
+			c.Init = i64(int64(r.Range(-len(s)-2, len(s)+2)))
+		}
+		runCase(w, pl, c)
 	}
 
 	// (2) grammar-generated longer patterns, (3) malformed stream
